@@ -460,6 +460,27 @@ func ruleContiguity(c *Ctx, rule string) {
 }
 
 // senderImpls: the `send` methods of types implementing the sender interface.
+// senderCores: for each sender implementation, the function that holds its chunk loop (the send method itself, or the
+// private helper the loop was split off into).
+func (c *Ctx) senderCores() []*ssa.Function {
+	var out []*ssa.Function
+	for _, fn := range c.senderImpls() {
+		out = append(out, c.W.coreWith(fn, func(in ssa.Instruction) bool {
+			// the dynamic call of the send callback field
+			call, ok := in.(*ssa.Call)
+			if !ok || staticCallee(call) != nil || call.Call.IsInvoke() {
+				return false
+			}
+			if _, isB := call.Call.Value.(*ssa.Builtin); isB {
+				return false
+			}
+			_, _, isField := loadedField(call.Call.Value)
+			return isField && call.Call.Signature().Results().Len() == 1
+		}))
+	}
+	return out
+}
+
 func (c *Ctx) senderImpls() []*ssa.Function {
 	var out []*ssa.Function
 	for _, fn := range c.W.Funcs {
